@@ -271,6 +271,7 @@ func checkC10(p *Program, r *Report) {
 
 	checkTailConsistent(p, r)
 	checkBitSlice(p, r, "C10.bitslice")
+	checkArrayBound(p, r, "C10.array-bound")
 	{
 		var fs []*ssa.Function
 		var roots []*ssa.Function
@@ -353,6 +354,76 @@ func checkC10(p *Program, r *Report) {
 		r.Check(same, "cursor arithmetic of the step-mode descents "+strings.Join(names, " / "), "", "identical update terms: "+sets[0], "cursor update terms differ: "+strings.Join(sets, "  VS  "))
 	} else {
 		r.Unk("cursor arithmetic of the step-mode descents", "", fmt.Sprintf("found %d step-mode descents, expected the exact-match and the three-way descent", len(sets)))
+	}
+	// ---- every descent reachable from the point lookups handles step mode: a trie built without
+	// InnerPrefix stores only the length of a branch-free run; a descent that does not advance the cursor
+	// by it is right only where a witness of option InnerPrefix is known non-nil
+	{
+		prevRule := r.curRule
+		defer func() { _ = prevRule }()
+		r.Rule("C10.step-mode", "call graph + CFG", "a descent without step handling is reached only under a witness of stored inner prefixes", 0)
+		var roots []*ssa.Function
+		for _, n := range []string{"Get", "GetID", "RangeGet", "Search", "GetI8", "GetI16", "GetI32", "GetI64"} {
+			if m := p.Method(p.Trie, "SlimTrie", n); m != nil {
+				roots = append(roots, m)
+			}
+		}
+		reach := trieReach(roots...)
+		var witnesses map[string]bool
+		for _, d := range descents {
+			if !reach[d] {
+				continue
+			}
+			hasStep := false
+			lcs := lookupCallsIn(d, lookups)
+			for _, lc := range lcs {
+				if len(stepAdvances(d, lc.cursor)) > 0 {
+					hasStep = true
+				}
+			}
+			if hasStep {
+				continue
+			}
+			if witnesses == nil {
+				witnesses = optionWitnesses(newBuilderFlow(p), "InnerPrefix")
+			}
+			var bad []string
+			sites := 0
+			for g := range reach {
+				for _, c := range callsIn(g) {
+					if calleeOf(c) != d {
+						continue
+					}
+					sites++
+					guarded := false
+					for x := c.Block(); x != nil && !guarded; x = x.Idom() {
+						id := x.Idom()
+						if id == nil {
+							break
+						}
+						iff, ok := lastInstr(id).(*ssa.If)
+						if !ok || len(x.Preds) != 1 {
+							continue
+						}
+						v, nilSucc, ok := nilTest(iff.Cond)
+						if !ok || !witnesses[wirePathOf(v)] {
+							continue
+						}
+						if id.Succs[1-nilSucc] == x {
+							guarded = true
+						}
+					}
+					if !guarded {
+						bad = append(bad, "called from "+shortFn(g)+" at "+p.Pos(c.Pos()))
+					}
+				}
+			}
+			sort.Strings(bad)
+			r.Func(shortFn(d))
+			r.Check(len(bad) == 0 && sites > 0, "descent "+shortFn(d)+" without step handling", p.Pos(d.Pos()), fmt.Sprintf("each of its %d call(s) under the lookups is dominated by a non-nil witness of option InnerPrefix %v", sites, sortedKeys(witnesses)),
+				"the descent never advances the cursor by a stored step length, and is "+strings.Join(firstN(dedupStrings(bad), 3), "; ")+" without a dominating test that inner prefixes are stored (witnesses "+strings.Join(sortedKeys(witnesses), ",")+"): on a trie built without InnerPrefix every key below a step is missed")
+		}
+		r.curRule = prevRule
 	}
 	// RangeGet / Search share the three-way descent (same obligation as C02.index)
 	rg, se := p.Method(p.Trie, "SlimTrie", "RangeGet"), p.Method(p.Trie, "SlimTrie", "Search")
@@ -902,7 +973,10 @@ func checkLeafDecoder(p *Program, r *Report, rule string) {
 }
 
 func init() {
-	controlFns["C10"] = func(fx *Program, r *Report) { controlNoRuneWalk(fx, r, "C10.bytes-not-runes") }
+	controlFns["C10"] = func(fx *Program, r *Report) {
+		controlNoRuneWalk(fx, r, "C10.bytes-not-runes")
+		controlArrayBound(fx, r, "C10.array-bound")
+	}
 }
 
 // checkTailConsistent (C10.tail-consistent): the exact-match descent and the
